@@ -1,6 +1,7 @@
 package main
 
 import (
+	"fmt"
 	"go/token"
 	"go/types"
 	"strings"
@@ -359,5 +360,247 @@ func c11R6(c *Ctx) {
 	}
 	if n < 10 {
 		c.undecided("closes", "fewer close sites than expected")
+	}
+}
+
+// c11Mutex: every mutex acquired in the package is released on every path out of the acquiring function:
+// an Unlock of the same mutex is deferred after the Lock, or every path from the Lock to a return passes one.
+// (A lock left held turns the next stop / park / drag-buffer call into a hang.)
+func c11Mutex(c *Ctx) {
+	n := 0
+	for _, f := range c.AllFns {
+		if !c.inPkg(f) {
+			continue
+		}
+		fname := c.fnName(f)
+		k := 0
+		eachInstr(f, func(in ssa.Instruction) {
+			ci, ok := in.(*ssa.Call)
+			if !ok {
+				return
+			}
+			id := calleeID(&ci.Call)
+			var unl string
+			switch id {
+			case "(*sync.Mutex).Lock":
+				unl = "(*sync.Mutex).Unlock"
+			case "(*sync.RWMutex).Lock":
+				unl = "(*sync.RWMutex).Unlock"
+			case "(*sync.RWMutex).RLock":
+				unl = "(*sync.RWMutex).RUnlock"
+			default:
+				return
+			}
+			n++
+			k++
+			m := ci.Call.Args[0]
+			isUnlock := func(x ssa.Instruction) bool {
+				xc, ok := x.(ssa.CallInstruction)
+				return ok && calleeID(xc.Common()) == unl && (sameAddr(xc.Common().Args[0], m) || sameValue(xc.Common().Args[0], m))
+			}
+			name, _ := fieldAddrName(m)
+			key := fmt.Sprintf("%s/lock.%d[%s]", fname, k, name)
+			// a deferred unlock registered on every path from the lock before anything can return
+			hit, path := reachAvoid(in, isReturn, func(x ssa.Instruction) bool {
+				return isUnlock(x) // plain call or defer
+			})
+			if hit != nil {
+				c.bad(key, c.ipos(in), "the mutex can still be held when the function returns: a path from Lock to a return passes no Unlock (and registers no deferred one)", c.pathStr(path)...)
+				return
+			}
+			c.ok(key, c.ipos(in), "every path from Lock to a return passes an Unlock of the same mutex (or registers it with defer)")
+		})
+	}
+	if n < 6 {
+		c.undecided("mutex/sites", fmt.Sprintf("only %d Lock sites found; the rule was confirmed on 7", n))
+	}
+}
+
+// c11StageExits: a pipeline stage ends only for a reason: it cancelled with a cause, the context was
+// already cancelled (ctx.Err() != nil edge / Done arm), or its work is complete — its input channel was
+// closed, the acknowledged/saved step reached the size, the end-of-data chunk or EOF arrived, or it has
+// just signalled success. A return on any other path leaves the other stages (and the peer) waiting.
+// stageCompletion: what counts as "work complete" for each pipeline stage, from reading the stage:
+// closed = its input channel was closed by the producer; sizeGE = the read total reached the size;
+// empty = the end-of-data chunk arrived; eof = the decoder reported EOF; send:<chan> = it has just
+// signalled on that channel; call:<id> = it handed over to that function.
+var stageCompletion = map[string][]string{
+	"trzszTransfer.pipelineReadData$1":     {"sizeGE"},
+	"trzszTransfer.pipelineEncodeData$1":   {"closed"},
+	"trzszTransfer.pipelineSendData$2":     {"closed"},
+	"trzszTransfer.pipelineRecvAck$1":      {"call:" + tT + "pipelineRecvFinalAck"},
+	"trzszTransfer.pipelineRecvFinalAck":   {"send:succ"},
+	"trzszTransfer.pipelineSendAck$1":      {"send:succ"},
+	"trzszTransfer.pipelineShowProgress$1": {"closed"},
+	"trzszTransfer.pipelineCalculateMD5$1": {"closed"},
+	"trzszTransfer.pipelineRecvData$1":     {"empty"},
+	"trzszTransfer.pipelineDecodeData$1":   {"eof"},
+	"trzszTransfer.pipelineSaveData$1":     {"send:ackImmediatelyChan"},
+}
+
+func c11StageExits(c *Ctx) {
+	reach := c.reachableFrom(c.stageRoots()...)
+	n := 0
+	for _, f := range c.AllFns {
+		if !reach[f] || f.Signature.Results().Len() != 0 || len(f.Blocks) == 0 {
+			continue
+		}
+		fname := c.fnName(f)
+		if _, ex := c11Exempt[fname]; ex || !strings.Contains(fname, "pipeline") {
+			continue
+		}
+		if f.Parent() != nil && !c.goTargets()[f] {
+			continue // deferred / helper literal inside a stage, not a stage of its own
+		}
+		if fname == "trzszTransfer.pipelineSendHash$1" || fname == "trzszTransfer.pipelineRecvHashAck$1" {
+			continue // the hash stages: C08-R5 (over-sent, deliver-or-cancel) decides the same question with their own completion conditions
+		}
+		n++
+		doneArm := func(from, to *ssa.BasicBlock) bool {
+			for _, fc := range edgeFactsTo(from, to) {
+				op, x, y, ok := cmpFact(fc)
+				if !ok {
+					continue
+				}
+				e, isE := x.(*ssa.Extract)
+				if !isE || e.Index != 0 {
+					continue
+				}
+				sel, isSel := e.Tuple.(*ssa.Select)
+				k, isK := constInt(y)
+				if !isSel || !isK {
+					continue
+				}
+				if op == token.EQL && int(k) < len(sel.States) && isDoneRecv(sel.States[k]) {
+					return true
+				}
+				if op == token.NEQ && len(sel.States) == 2 && int(k) < 2 && isDoneRecv(sel.States[1-int(k)]) {
+					return true
+				}
+			}
+			return false
+		}
+		kinds, classified := stageCompletion[fname]
+		if !classified {
+			c.undecided(fname+"/exit-has-a-reason", "a pipeline stage this rule has no completion condition for (classify it in stageCompletion)")
+			continue
+		}
+		has := func(k string) bool {
+			for _, x := range kinds {
+				if x == k {
+					return true
+				}
+			}
+			return false
+		}
+		complete := func(from, to *ssa.BasicBlock) bool {
+			for _, fc := range edgeFactsTo(from, to) {
+				// input channel closed
+				if e, ok := fc.V.(*ssa.Extract); ok && e.Index == 1 && !fc.Pol && has("closed") {
+					if u, ok := e.Tuple.(*ssa.UnOp); ok && u.Op == token.ARROW && u.CommaOk {
+						return true
+					}
+				}
+				op, x, y, ok := cmpFact(fc)
+				if ok && op == token.GEQ && has("sizeGE") { // the read loop: step >= size
+					if call, _ := callOf(y); isVar("size")(y) || (call != nil && call.Call.IsInvoke() && call.Call.Method.Name() == "getSize") {
+						return true
+					}
+				}
+				if !ok || op != token.EQL {
+					continue
+				}
+				for _, p := range [][2]ssa.Value{{x, y}, {y, x}} {
+					if call, _ := callOf(p[0]); has("empty") && call != nil && calleeID(&call.Call) == "builtin len" && isConstIntV(0)(p[1]) { // end-of-data chunk
+						return true
+					}
+					if u, isU := strip(p[1]).(*ssa.UnOp); has("eof") && isU && u.Op == token.MUL { // err == io.EOF
+						if g, isG := u.X.(*ssa.Global); isG && g.Name() == "EOF" {
+							return true
+						}
+					}
+				}
+			}
+			return false
+		}
+		signalled := func(in ssa.Instruction) bool {
+			if isCancelWithError(in) {
+				return true
+			}
+			if s, ok := in.(*ssa.Send); ok && has("send:"+chanName(s.Chan)) {
+				return true
+			}
+			if ci, ok := in.(ssa.CallInstruction); ok && has("call:"+calleeID(ci.Common())) {
+				return true
+			}
+			return false
+		}
+		hit, path := reachFromE(f.Blocks[0], 0, isReturn, signalled, func(from, to *ssa.BasicBlock) bool {
+			return ctxErrEdge(from, to) || doneArm(from, to) || complete(from, to)
+		})
+		c.check(hit == nil, fname+"/exit-has-a-reason", c.pos(f.Pos()), "every return follows a cancel with a cause, a cancelled context, or the stage's completion condition", "the stage can return on a live context without having finished or cancelled: the stages and the peer that depend on it keep waiting", c.pathStr(path)...)
+	}
+	if n < 10 {
+		c.undecided("stage-exits/stages", fmt.Sprintf("only %d stages found", n))
+	}
+}
+
+// c11BufInit: the size-probing hand-shake between the encoder's writer and the ack stage. The writer
+// waits for one token per chunk while the init-phase flag is set; so (a) a new transfer starts with a
+// positive chunk size, (b) the wait is cancellable, and (c) in the ack stage every path on which the
+// flag was read as set reaches ackBufInit() before the next ack is taken, unless a later read of the
+// flag found it cleared.
+func c11BufInit(c *Ctx) {
+	nt := c.fn("newTransfer")
+	okSize := false
+	for _, ci := range callsIn(nt, anyID) {
+		if isAtomicOnField(ci, "bufferSize", "Store") {
+			if k, ok := constInt(ci.Common().Args[1]); ok && k >= 1024 {
+				okSize = true
+			}
+		}
+	}
+	c.check(okSize, "newTransfer/initial-chunk-size", c.pos(nt.Pos()), "a transfer starts with a positive chunk size (>= 1024)", "a transfer starts without a positive chunk size: the first chunk is empty, which is the end-of-data marker")
+	af := c.fn("trzszTransfer.pipelineRecvAck$1")
+	var next ssa.Instruction
+	eachInstr(af, func(in ssa.Instruction) {
+		if u, ok := in.(*ssa.UnOp); ok && u.Op == token.ARROW && u.CommaOk && chanName(u.X) == "ackChan" {
+			next = in
+		}
+	})
+	if next == nil {
+		c.lost("range over ackChan in pipelineRecvAck")
+	}
+	isPhaseLoad := func(v ssa.Value) bool {
+		call, _ := callOf(v)
+		return call != nil && isAtomicOnField(call, "bufInitPhase", "Load")
+	}
+	cleared := func(from, to *ssa.BasicBlock) bool {
+		for _, f := range edgeFactsTo(from, to) {
+			if isPhaseLoad(f.V) && !f.Pol {
+				return true
+			}
+		}
+		return false
+	}
+	n := 0
+	for _, b := range af.Blocks {
+		i := blockIf(b)
+		if i == nil || !isPhaseLoad(normFact(fact{V: i.Cond, Pol: true}).V) {
+			continue
+		}
+		k := 0
+		if !normFact(fact{V: i.Cond, Pol: true}).Pol {
+			k = 1
+		}
+		n++
+		hit, path := reachFromE(b.Succs[k], 0, func(in ssa.Instruction) bool { return in == next || isReturn(in) }, func(in ssa.Instruction) bool {
+			ci, ok := in.(ssa.CallInstruction)
+			return ok && (calleeID(ci.Common()) == tT+"ackBufInit" || isCancelWithError(in))
+		}, func(from, to *ssa.BasicBlock) bool { return cleared(from, to) || ctxErrEdge(from, to) })
+		c.check(hit == nil, fmt.Sprintf("pipelineRecvAck/init-phase-ack.%d", n), c.ipos(i), "once the init-phase flag was read as set, the writer's token is released before the next ack is taken (or a later read found the flag cleared)", "an ack can be consumed in the init phase without releasing the writer: the encoder waits for a token that never comes", c.pathStr(path)...)
+	}
+	if n < 2 {
+		c.undecided("pipelineRecvAck/init-phase-reads", "fewer reads of the init-phase flag than expected")
 	}
 }
